@@ -83,6 +83,28 @@ def build_cmd(harness_qnames, features="default", jobs=8, timeout_s=900, playbac
     return cmd
 
 
+_LIVE = set()
+
+
+def _kill_live(*_a):
+    for pid in list(_LIVE):
+        try:
+            os.killpg(pid, signal.SIGKILL)
+        except OSError:
+            pass
+    if _a:   # called as a signal handler: the check is undecided, never an alarm
+        os._exit(2)
+
+
+import atexit
+atexit.register(_kill_live)
+try:
+    signal.signal(signal.SIGTERM, _kill_live)
+    signal.signal(signal.SIGINT, _kill_live)
+except ValueError:
+    pass
+
+
 def run(dest, harness_qnames, features="default", jobs=8, timeout_s=900, playback=False):
     """returns (dict qname->HResult, compile_ok, full_output)"""
     cmd = build_cmd(harness_qnames, features, jobs, timeout_s, playback)
@@ -92,6 +114,7 @@ def run(dest, harness_qnames, features="default", jobs=8, timeout_s=900, playbac
     t0 = time.time()
     proc = subprocess.Popen(cmd, cwd=dest, env=env, stdout=subprocess.PIPE, stderr=subprocess.STDOUT,
                             text=True, start_new_session=True)
+    _LIVE.add(proc.pid)
     stop, killed = threading.Event(), []
     th = threading.Thread(target=_watchdog, args=(proc, stop, killed), daemon=True)
     th.start()
@@ -103,6 +126,7 @@ def run(dest, harness_qnames, features="default", jobs=8, timeout_s=900, playbac
         out, _ = proc.communicate()
         out += "\nVERIF-ENGINE: overall timeout\n"
     stop.set()
+    _LIVE.discard(proc.pid)
     res = parse(out, harness_qnames)
     compile_ok = ("Checking harness" in out) or not harness_qnames
     if "error: could not compile" in out or re.search(r"^error(\[E\d+\])?:", out, re.M):
